@@ -41,6 +41,8 @@ pub enum SegEdit {
   Extend(u8),
   /// cut n characters off the end of the footer segment
   Truncate(u8),
+  /// append 1 or 2 '=' to the footer segment (base64 padding: decodes to the same footer under a lenient decoder)
+  Pad(u8),
 }
 
 pub const SEG_DELTAS: [usize; 12] = [1, 2, 3, 4, 255, 256, 257, 512, 1024, 65535, 65536, 65537];
@@ -125,7 +127,7 @@ impl Sub for FooterBinding {
     cl.tag(format!("related:{}", match &c.rel {
       Related::Same => "same", Related::EmptyVsNone => "none-vs-empty", Related::None => "none", Related::Empty => "empty", Related::Prefix(_) => "prefix",
       Related::Extend(_) => "extension", Related::CaseFlip => "case", Related::LastByte(_) => "last-byte", Related::Other(_) => "unrelated", Related::Decorate(..) => "invisible-decoration" }));
-    cl.tag(format!("edit:{}", match c.edit { SegEdit::Keep => "keep", SegEdit::Replace => "replace", SegEdit::Remove => "remove", SegEdit::Blank => "blank", SegEdit::Extend(_) => "extend", SegEdit::Truncate(_) => "truncate" }));
+    cl.tag(format!("edit:{}", match c.edit { SegEdit::Keep => "keep", SegEdit::Replace => "replace", SegEdit::Remove => "remove", SegEdit::Blank => "blank", SegEdit::Extend(_) => "extend", SegEdit::Truncate(_) => "truncate", SegEdit::Pad(_) => "pad" }));
     // (iii) shape of the produced token
     let (header, pseg, fseg) = split_token(&t).expect("well-formed token");
     let want_seg = if norm(f).is_empty() { None } else { Some(b64(norm(f).as_bytes())) };
@@ -166,6 +168,12 @@ impl Sub for FooterBinding {
           }
           SegEdit::Remove => None,
           SegEdit::Extend(i) => Some(format!("{}{}", cur_seg, "A".repeat(SEG_DELTAS[(i as usize) % SEG_DELTAS.len()]))),
+          SegEdit::Pad(n) => {
+            if cur_seg.is_empty() {
+              return Verdict::Discard;
+            }
+            Some(format!("{}{}", cur_seg, "=".repeat(1 + (n as usize % 2))))
+          }
           SegEdit::Truncate(i) => {
             let n = SEG_DELTAS[(i as usize) % SEG_DELTAS.len()];
             if n >= cur_seg.len() {
@@ -179,12 +187,13 @@ impl Sub for FooterBinding {
           SegEdit::Replace => f2.clone(),
           // what the edited segment decodes to, if it decodes at all
           SegEdit::Extend(_) | SegEdit::Truncate(_) => new_seg.as_deref().and_then(unb64).and_then(|b| String::from_utf8(b).ok()),
+          SegEdit::Pad(_) => f.clone(), // a padded segment still spells F: it must be refused under F all the same
           _ => None,
         };
         if matches!(c.edit, SegEdit::Extend(_) | SegEdit::Truncate(_)) && fseg.is_none() && matches!(c.edit, SegEdit::Truncate(_)) {
           return Verdict::Discard;
         }
-        if norm(&edited_value) == norm(f) {
+        if norm(&edited_value) == norm(f) && !matches!(c.edit, SegEdit::Pad(_)) {
           return Verdict::Discard; // the decoded footer value did not change
         }
         let edited = match &new_seg {
@@ -202,7 +211,7 @@ impl Sub for FooterBinding {
           }
           match r {
             Err(e) => cl.tag(format!("rejected:{}", e.variant)),
-            Ok(o) => vio!("C05:accepted-edited-footer-segment:{}:{}:{}:{}", p.label(), s.layer.label(), match c.edit { SegEdit::Replace => "Replace", SegEdit::Remove => "Remove", SegEdit::Blank => "Blank", SegEdit::Extend(_) => "Extend", SegEdit::Truncate(_) => "Truncate", SegEdit::Keep => "Keep" }, who;
+            Ok(o) => vio!("C05:accepted-edited-footer-segment:{}:{}:{}:{}", p.label(), s.layer.label(), match c.edit { SegEdit::Replace => "Replace", SegEdit::Remove => "Remove", SegEdit::Blank => "Blank", SegEdit::Extend(_) => "Extend", SegEdit::Truncate(_) => "Truncate", SegEdit::Pad(_) => "Pad", SegEdit::Keep => "Keep" }, who;
               "footer segment edited ({:?}: {:?} -> {:?}) yet accepted under the {} footer {:?}, returned {:?}; token {}", c.edit, f, edited_value, who, expect, o.message(), edited),
           }
         }
@@ -229,7 +238,7 @@ fn rel_strategy() -> BoxedStrategy<Related> {
 }
 
 fn case(proto: Proto, layer: Layer) -> BoxedStrategy<FooterCase> {
-  (tok_spec(proto, layer), rel_strategy(), prop_oneof![8 => Just(SegEdit::Keep), 4 => Just(SegEdit::Replace), 2 => Just(SegEdit::Remove), 2 => Just(SegEdit::Blank), 3 => any::<u8>().prop_map(SegEdit::Extend), 1 => any::<u8>().prop_map(SegEdit::Truncate)])
+  (tok_spec(proto, layer), rel_strategy(), prop_oneof![8 => Just(SegEdit::Keep), 4 => Just(SegEdit::Replace), 2 => Just(SegEdit::Remove), 2 => Just(SegEdit::Blank), 3 => any::<u8>().prop_map(SegEdit::Extend), 1 => any::<u8>().prop_map(SegEdit::Truncate), 1 => any::<u8>().prop_map(SegEdit::Pad)])
     .prop_map(|(tok, rel, edit)| FooterCase { tok, rel, edit })
     .boxed()
 }
